@@ -159,7 +159,7 @@ Fixpoint evalQ (r : string -> Q) (e : expr) : option Q :=
       | Some l, Some h =>
           if is_int l && is_int h then
             let n := (to_int h - to_int l + 1)%Z in
-            if Z.ltb 400 n then None
+            if Z.ltb 100 n then None
             else bigQo k (fun v => evalQ (upd r i v) b) (to_int l) (Z.to_nat n)
           else None
       | _, _ => None
